@@ -499,29 +499,237 @@ func c03AltPrefix(c *Ctx, p *Prog) {
 			}
 		}
 	}
+	// every key event of the rune and function-key parsers is Alt-aware: its modifier argument is the
+	// key's own modifiers with ModAlt added exactly when the pending flag was set (and the flag is cleared
+	// on that path) — written out in place, or through a helper whose body does just that.  A helper that
+	// returns ModAlt *instead of* the modifiers it was given is fine only where it is given ModNone.
+	takers := altTakers(p)
 	for _, want := range []string{"parseRune", "parseFunctionKey"} {
 		fn := p.Fn("tcell:(*tScreen)." + want)
-		ok := false
+		n, bad := 0, ""
 		if fn != nil {
-			// every load is a branch condition whose true edge reaches a store of false
-			lds := loadsOf(fn, "tcell.tScreen", "escaped")
-			ok = len(lds) > 0
-			for _, ld := range lds {
-				cleared := false
-				for _, st := range storesTo(fn, "tcell.tScreen", "escaped") {
-					if b, isB := constBool(st.Val); isB && !b {
-						for _, g := range rawGuardsAt(st.Block()) {
-							if g.Cond == ssa.Value(ld) && g.Positive {
+			for _, call := range callsIn(fn, func(nm string, _ *ssa.CallCommon) bool { return strings.HasSuffix(nm, "NewEventKey") }) {
+				cc := callCommon(call)
+				if len(cc.Args) != 3 {
+					continue
+				}
+				n++
+				if why := altAware(p, fn, cc.Args[2], takers, 0); why != "" {
+					bad += p.pos(call.Pos()) + ": " + why + "; "
+				}
+			}
+		}
+		c.Check(n > 0 && bad == "", "C03-R6", "alt-prefix:"+want+":test-and-clear", "-", fmt.Sprintf("%d key event(s), each with its own modifiers plus ModAlt exactly when the pending flag was set and consumed %s", n, bad))
+	}
+}
+
+// altTakers: helpers that consume the pending-Alt flag.  kind "or": returns its parameter with ModAlt
+// added when the flag was set; "flag": no parameter, returns ModAlt or ModNone; "replace": returns
+// ModAlt in place of its parameter.
+func altTakers(p *Prog) map[*ssa.Function]string {
+	out := map[*ssa.Function]string{}
+	modAlt := pkgConst(p, "ModAlt")
+	for _, fn := range p.modFns {
+		if fn.Pkg != p.Tcell || recvTypeName(fn) != "tcell.tScreen" || fn.Parent() != nil {
+			continue
+		}
+		if len(fn.Params) > 2 {
+			continue
+		}
+		lds := loadsOf(fn, "tcell.tScreen", "escaped")
+		if len(lds) == 0 {
+			continue
+		}
+		// cleared under the flag's true edge
+		cleared := false
+		for _, st := range storesTo(fn, "tcell.tScreen", "escaped") {
+			if b, isB := constBool(st.Val); isB && !b {
+				for _, g := range rawGuardsAt(st.Block()) {
+					if g.Positive {
+						for _, ld := range lds {
+							if g.Cond == ssa.Value(ld) {
 								cleared = true
 							}
 						}
 					}
 				}
-				if !cleared {
-					ok = false
+			}
+		}
+		if !cleared {
+			continue
+		}
+		var prm ssa.Value
+		if len(fn.Params) == 2 {
+			prm = fn.Params[1]
+		}
+		shapes := map[string]bool{}
+		var classify func(v ssa.Value, d int)
+		classify = func(v ssa.Value, d int) {
+			if d > 4 {
+				shapes["?"] = true
+				return
+			}
+			v = derefCell(v)
+			switch x := v.(type) {
+			case *ssa.Phi:
+				for _, e := range x.Edges {
+					classify(e, d+1)
+				}
+				return
+			case *ssa.BinOp:
+				if x.Op == token.OR && prm != nil {
+					if k, isK := constInt(x.Y); isK && k == modAlt && x.X == prm {
+						shapes["P|Alt"] = true
+						return
+					}
+					if k, isK := constInt(x.X); isK && k == modAlt && x.Y == prm {
+						shapes["P|Alt"] = true
+						return
+					}
+				}
+			}
+			if prm != nil && v == prm {
+				shapes["P"] = true
+				return
+			}
+			if k, isK := constInt(v); isK {
+				switch k {
+				case 0:
+					shapes["0"] = true
+					return
+				case modAlt:
+					shapes["Alt"] = true
+					return
+				}
+			}
+			shapes["?"] = true
+		}
+		for _, r := range returnsOf(fn) {
+			if len(r.Results) != 1 {
+				shapes["?"] = true
+				continue
+			}
+			classify(resultOf(r, 0), 0)
+		}
+		switch {
+		case shapes["?"]:
+		case prm != nil && shapes["P|Alt"] && !shapes["Alt"] && !shapes["0"]:
+			out[fn] = "or"
+		case prm == nil && shapes["Alt"] && shapes["0"] && !shapes["P"]:
+			out[fn] = "flag"
+		case prm != nil && shapes["Alt"] && shapes["P"] && !shapes["P|Alt"]:
+			out[fn] = "replace"
+		}
+	}
+	return out
+}
+
+// altAware: "" if modifier value v is <base> plus ModAlt-when-pending; otherwise the reason.
+func altAware(p *Prog, fn *ssa.Function, v ssa.Value, takers map[*ssa.Function]string, depth int) string {
+	modAlt := pkgConst(p, "ModAlt")
+	v = derefCell(v)
+	if depth > 4 {
+		return "modifier expression too deep"
+	}
+	isNone := func(x ssa.Value) bool { k, isK := constInt(x); return isK && k == 0 }
+	takerCall := func(x ssa.Value) (*ssa.Call, string) {
+		call, ok := x.(*ssa.Call)
+		if !ok {
+			return nil, ""
+		}
+		return call, takers[call.Call.StaticCallee()]
+	}
+	if call, kind := takerCall(v); call != nil && kind != "" {
+		switch kind {
+		case "or":
+			return ""
+		case "flag":
+			return "" // ModAlt or nothing: fine where the key has no modifiers of its own (checked by the caller shape below)
+		case "replace":
+			if len(call.Call.Args) == 2 && isNone(call.Call.Args[1]) {
+				return ""
+			}
+			return "the helper " + call.Call.StaticCallee().Name() + " returns ModAlt in place of the modifiers it is given (" + valName(call.Call.Args[1]) + "): the key's own modifiers are lost when Alt applies"
+		}
+	}
+	switch x := v.(type) {
+	case *ssa.BinOp:
+		if x.Op == token.OR {
+			for _, pair := range [][2]ssa.Value{{x.X, x.Y}, {x.Y, x.X}} {
+				if call, kind := takerCall(pair[1]); call != nil && (kind == "flag" || (kind == "replace" && len(call.Call.Args) == 2 && isNone(call.Call.Args[1])) || (kind == "or" && len(call.Call.Args) == 2 && isNone(call.Call.Args[1]))) {
+					return ""
 				}
 			}
 		}
-		c.Check(ok, "C03-R6", "alt-prefix:"+want+":test-and-clear", "-", "the flag is consumed (cleared) exactly where it is applied as ModAlt")
+	case *ssa.Phi:
+		// written out in place: one edge carries base, the other base|ModAlt (or ModNone / ModAlt), and the
+		// Alt edge comes from a block where the flag was true and is cleared
+		var base, alt ssa.Value
+		altIdx := -1
+		for i, e := range x.Edges {
+			e = derefCell(e)
+			if k, isK := constInt(e); isK && k == modAlt {
+				alt, altIdx = e, i
+				continue
+			}
+			if bo, isBO := e.(*ssa.BinOp); isBO && bo.Op == token.OR {
+				if k, isK := constInt(bo.Y); isK && k == modAlt {
+					alt, altIdx = e, i
+					continue
+				}
+			}
+			base = e
+		}
+		if alt == nil || base == nil {
+			return "the modifier does not depend on the pending-Alt flag"
+		}
+		if bo, isBO := alt.(*ssa.BinOp); isBO {
+			if bo.X != base {
+				return "ModAlt is added to " + valName(bo.X) + " but the other path uses " + valName(base)
+			}
+		} else if !isNone(base) {
+			return "when Alt applies the modifier is ModAlt alone, the key's own modifiers (" + valName(base) + ") are lost"
+		}
+		pred := x.Block().Preds[altIdx]
+		flagged := false
+		for _, g := range rawGuardsAt(pred) {
+			if ld, isLd := g.Cond.(*ssa.UnOp); isLd && g.Positive {
+				if ref, _, okR := fieldAddrRef(ld.X); okR && ref.Name == "escaped" {
+					flagged = true
+				}
+			}
+		}
+		// the edge may come straight from the test
+		if !flagged && len(pred.Instrs) > 0 {
+			if iff, isIf := pred.Instrs[len(pred.Instrs)-1].(*ssa.If); isIf && pred.Succs[0] == x.Block() {
+				if ld, isLd := iff.Cond.(*ssa.UnOp); isLd {
+					if ref, _, okR := fieldAddrRef(ld.X); okR && ref.Name == "escaped" {
+						flagged = true
+					}
+				}
+			}
+		}
+		if !flagged {
+			return "ModAlt is applied on a path that did not test the pending flag"
+		}
+		clearedOnPath := false
+		for _, st := range storesTo(fn, "tcell.tScreen", "escaped") {
+			if b, isB := constBool(st.Val); isB && !b {
+				if st.Block() == pred || st.Block().Dominates(pred) || pred.Dominates(st.Block()) {
+					for _, g := range rawGuardsAt(st.Block()) {
+						if ld, isLd := g.Cond.(*ssa.UnOp); isLd && g.Positive {
+							if ref, _, okR := fieldAddrRef(ld.X); okR && ref.Name == "escaped" {
+								clearedOnPath = true
+							}
+						}
+					}
+				}
+			}
+		}
+		if !clearedOnPath {
+			return "the pending flag is applied but not cleared"
+		}
+		return ""
 	}
+	return "the modifier (" + valName(v) + ") does not take the pending-Alt flag into account"
 }
